@@ -2,8 +2,8 @@
 
   build(adoc)        abstract document (dict, the JSON shape of Lcd.tla) -> ContentDocument (model API only)
   project(doc)       ContentDocument -> abstract document (public getters only)
-  horizon(adoc)      last tick worth looking at
-  visible(doc, H)    per tick 0..H: what ISD.from_model shows: [[tid, colour, paragraph background, paragraph textAlign]..]
+  grid(adoc)         the ticks worth looking at (every boundary, 0, one after the last)
+  visible(doc, ticks) per tick: what ISD.from_model shows: [[tid, colour, paragraph background, paragraph textAlign]..]
   random_doc(rng)    a seeded random abstract document, richer than the enumerated family
 
 Ticks are half seconds.  Nothing here judges the property: values are parsed, built, projected and lexed only.
@@ -293,34 +293,47 @@ def project(doc):
   return {"init": ini, "regions": regions, "nodes": nodes}
 
 
-def horizon(adoc):
-  """Largest absolute boundary of the abstract document, plus one tick (mirrors Lcd!Horizon)."""
-  ts = [0]
+def grid(adoc):
+  """Ticks at which the presentation of the abstract document can change (absolute begin/end of every region, element and
+  animation step), tick 0 and one tick after the last: between two of them every snapshot is constant."""
+  ts = {0}
+
+  def add(pb, pe, b, e):
+    ab = pb + max(b, 0)
+    if e == -1:
+      ae = pe
+    elif pe == -1:
+      ae = pb + e
+    else:
+      ae = min(pb + e, pe)
+    ts.add(ab)
+    if ae != -1:
+      ts.add(ae)
+    return ab, ae
+
   for r in adoc["regions"]:
-    ts += [max(r["b"], 0), r["e"]]
+    rb, re_ = add(0, -1, r["b"], r["e"])
+    for st in r["steps"]:
+      add(rb, re_, st["b"], st["e"])
   ab = []
   for x in adoc["nodes"]:
     pb, pe = (0, -1) if x["par"] == 0 else ab[x["par"] - 1]
-    b = pb + max(x["b"], 0)
-    if x["e"] == -1:
-      e = pe
-    elif pe == -1:
-      e = pb + x["e"]
-    else:
-      e = min(pb + x["e"], pe)
-    ab.append((b, e))
-    ts += [b, e]
-  return max(ts) + 1
+    iv = add(pb, pe, x["b"], x["e"])
+    ab.append(iv)
+    for st in x["steps"]:
+      add(iv[0], iv[1], st["b"], st["e"])
+  ts.add(max(ts) + 1)
+  return sorted(t for t in ts if t >= 0)
 
 
-def visible(doc, H):
-  """What ISD.from_model shows at every tick 0..H: per visible text id the computed colour of its span and the computed
+def visible(doc, ticks):
+  """What ISD.from_model shows at every tick of `ticks`: per visible text id the computed colour of its span and the computed
   background colour and text alignment of the enclosing paragraph."""
   import ttconv.model as model
   from ttconv.isd import ISD
   sp = _sp()
   out = []
-  for t in range(H + 1):
+  for t in ticks:
     isd = ISD.from_model(doc, Fraction(t, TICK))
     seen = []
 
